@@ -598,5 +598,8 @@ def run(ctx):
     borrow(ctx, "C12", c19.rule_print, py)
     ctx.analysed["package"] = {"modules": len(py.mods), "functions": py.nfuncs}
     from .. import lints
+    # shared clause: the default state an omitted "state" key stands for is density x volume of each cell (C13.CONCAT)
+    from . import c13 as _c13b
+    borrow(ctx, "C12", _c13b.rule_concat, py)
     lints.run(ctx, "C12", ctx.py, ["filepath", "rdoutput", "text_array_rw", "rdscript", "rdsystem", "rdnetwork", "rdspace", "rdgridspace", "rdgraphspace", "value_processing"], truth_floor=12)
     ctx.assume("equality of content after a round trip (values, unit conversion of printed quantities) is not decided")
